@@ -191,12 +191,35 @@ func (a *actor) run(p *Peer, nops int) {
 			simrt.Self().OpSeq = call
 			if pr.L.Disconnect(p.Name) {
 				w.Fault("conn.drop")
-				a.extra = append(a.extra, RegOp{Kind: "drop", Peer: p.Name, OK: true, Call: call, Return: w.Stamp(), Desc: "conn.drop"})
+				a.extra = append(a.extra, RegOp{Kind: "drop", Peer: p.Name, OK: true, Call: p.Conn.RemoveBeganAt, Return: w.Stamp(), Desc: "conn.drop"})
 			}
 			if w.T.Bool(3, 4, "reconnect") {
 				w.Fault("conn.restart")
-				p.Connect()
-				a.hookSnapshots(p)
+				if w.T.Bool(1, 3, "subscribes-node-management-before-answering-discovery") {
+					// the peer's own subscription call overtakes its discovery reply (net.reorder on
+					// the peer's side): the node grants it to a feature whose device it does not know yet
+					p.AutoDD = false
+					p.Connect()
+					a.hookSnapshots(p)
+					w.Fault("net.reorder")
+					w.Probe("node-management-subscription-before-discovery-reply")
+					nmT := model.FeatureTypeTypeNodeManagement
+					ri := &regIssued{peer: p, op: RegOp{Kind: "sub", Peer: p.Name, Client: AddrStr(p.NM().Address()), Server: AddrStr(p.LocalNM()), Desc: "node-management-before-discovery", Valid: true}}
+					ri.ctr = p.SendSubscribe(p.NM(), p.LocalNM(), nmT, false, "sub:nm-before-discovery")
+					a.subs.issued = append(a.subs.issued, ri)
+					p.Await(ri.ctr)
+					p.AutoDD = true
+					for i := len(p.Conn.Out) - 1; i >= 0; i-- {
+						s := p.Conn.Out[i]
+						if s.Gen == p.Conn.Gen && Classifier(s) == "read" && s.D != nil && len(s.D.Payload.Cmd) > 0 && s.D.Payload.Cmd[0].NodeManagementDetailedDiscoveryData != nil {
+							p.SendDiscoveryReply(s.D.Header.MsgCounter, s.D.Header.AddressSource)
+							break
+						}
+					}
+				} else {
+					p.Connect()
+					a.hookSnapshots(p)
+				}
 				p.AwaitDiscovery()
 			} else {
 				return
